@@ -245,6 +245,12 @@ def run(ctx):
     _roles.rule_A_NAMES(ctx, modules=('enum_narsese::term',))
     import lskel as _lskel
     _lskel.rule_L_SKELETON(ctx, which=('term',), floor=10)
+    # push_components into a set-backed compound deduplicates by Eq and places by Hash: both must be the semantic ones (seed c17-h)
+    import eqhash as _eqh
+    _st, _cap = _eqh.rule_H_STORAGE(ctx)
+    _classes = _eqh.rule_H_EQSHAPE(ctx, _st, _cap)
+    _eqh.rule_H_ORDER(ctx)
+    _eqh.rule_H_HASH(ctx, _st, _classes)
     ctx.undecided = ["the exact accepted integer syntax (std's usize::from_str, trusted: optional leading '+', decimal digits, must fit usize)"]
     ctx.assumptions = ["nar_dev_utils::ResultBoost::transform runs its first closure iff the receiver is Ok, the second iff Err (read from the pinned source; version asserted)"]
     ctx.trusted = ["rustc HIR/MIR", "mirfacts driver", "python rule layer", "std String::clear/push_str, Vec/HashSet::extend semantics"]
